@@ -66,10 +66,63 @@ pub fn err_name(e: &ExecError, logs: &[String]) -> String {
                     }
                 }
             }
+            if let Some(n) = whirlpool_error_name(*c) {
+                return n;
+            }
             format!("Code({})", c)
         }
         ExecError::Abort(m) => format!("Abort({})", m.chars().take(60).collect::<String>()),
         ExecError::Runtime(m) => format!("Runtime({})", m),
+    }
+}
+
+/// names of the program's custom error numbers (the Pinocchio handlers return bare numbers): the
+/// variants of `ErrorCode` in programs/whirlpool/src/errors.rs in declaration order, from 6000;
+/// plus the Anchor framework codes the Pinocchio utilities re-use
+fn whirlpool_error_name(code: u64) -> Option<String> {
+    static NAMES: std::sync::OnceLock<Vec<String>> = std::sync::OnceLock::new();
+    let names = NAMES.get_or_init(|| {
+        let src = std::fs::read_to_string("/repo/programs/whirlpool/src/errors.rs").unwrap_or_default();
+        let mut v = vec![];
+        let mut in_enum = false;
+        for line in src.lines() {
+            let l = line.trim();
+            if l.starts_with("pub enum ErrorCode") {
+                in_enum = true;
+                continue;
+            }
+            if in_enum {
+                if l.starts_with('}') {
+                    break;
+                }
+                if l.starts_with('#') || l.starts_with("//") || l.is_empty() {
+                    continue;
+                }
+                let name: String = l.chars().take_while(|c| c.is_alphanumeric() || *c == '_').collect();
+                if !name.is_empty() {
+                    v.push(name);
+                }
+            }
+        }
+        v
+    });
+    if (6000..6000 + names.len() as u64).contains(&code) {
+        return Some(names[(code - 6000) as usize].clone());
+    }
+    match code {
+        3010 => Some("AccountNotSigner".to_string()),
+        3012 => Some("AccountNotInitialized".to_string()),
+        3007 => Some("AccountOwnedByWrongProgram".to_string()),
+        3000 => Some("AccountDiscriminatorAlreadySet".to_string()),
+        3001 => Some("AccountDiscriminatorNotFound".to_string()),
+        3002 => Some("AccountDiscriminatorMismatch".to_string()),
+        3006 => Some("AccountNotMutable".to_string()),
+        2012 => Some("ConstraintAddress".to_string()),
+        2003 => Some("ConstraintRaw".to_string()),
+        2000 => Some("ConstraintMut".to_string()),
+        2006 => Some("ConstraintSeeds".to_string()),
+        3008 => Some("InvalidProgramId".to_string()),
+        _ => None,
     }
 }
 
@@ -512,6 +565,438 @@ impl World {
             }
         };
         let _ = (&r.m_in, &r.m_mid, &r.m_out);
+        XHopOut { line, viols, tags }
+    }
+}
+
+// ================================================================================================
+// C12 / C13 / C16 / C04: the liquidity INSTRUCTIONS (Pinocchio-routed) through the entrypoint
+//   H xliq <ver 1|2> <id> <inc 0|1> <liquidity> <slackMode> <feeA: bps max fut> <feeB: bps max fut> <authMode>
+// slackMode: 0 = loose token max/min, 1 = exactly the resulting amounts, 2 = one unit too tight (A side).
+// authMode: 0 = the owner signs; 1 = a stranger signs (must fail); 2 = the owner does not sign (must fail).
+// ================================================================================================
+pub const TICK_RENT: u64 = 779520;
+
+fn min_balance(len: usize) -> u64 {
+    solana_program::rent::Rent::default().minimum_balance(len)
+}
+
+impl World {
+    pub fn x_liq(&self, t: &[&str]) -> XHopOut {
+        use anchor_lang::ToAccountMetas;
+        let mut viols = vec![];
+        let mut tags: Vec<&'static str> = vec![];
+        let ver: u8 = t[2].parse().unwrap();
+        let id: u32 = t[3].parse().unwrap();
+        let inc = t[4] == "1";
+        let liq: u128 = t[5].parse().unwrap();
+        let slack: u8 = t[6].parse().unwrap();
+        let (fee_a, fee_b) = if ver == 2 { (parse_fee(t[7], t[8], t[9]), parse_fee(t[10], t[11], t[12])) } else { (None, None) };
+        let auth_mode: u8 = t[13].parse().unwrap();
+        let pos0 = match self.pos(id) {
+            Some(p) => p,
+            None => return XHopOut { line: "err NoSuchPosition".to_string(), viols, tags },
+        };
+        // the world with both tick arrays of the position existing (initialize_tick_array is a separate instruction)
+        let mut base = crate::hist_oracle::clone_world(self);
+        let (ls, us) = (base.array_start_for(pos0.tick_lower_index), base.array_start_for(pos0.tick_upper_index));
+        base.ensure_array(ls);
+        base.ensure_array(us);
+        let f = |c: Option<FeeCfg>| c.map(|c| (c.bps as u64, c.max_fee)).unwrap_or((0, 0));
+        let ((ba, ma), (bb, mb)) = (f(fee_a), f(fee_b));
+        // ---- reference: the Pinocchio managers on a copy (vault bookkeeping disabled)
+        let mut reference = crate::hist_oracle::clone_world(&base);
+        reference.vault_a = u128::MAX / 4;
+        reference.vault_b = u128::MAX / 4;
+        let ref_res: Result<(u64, u64), String> = std::panic::catch_unwind(std::panic::AssertUnwindSafe(|| {
+            reference.modify_pub(id, liq, inc, true).map(|s| {
+                let mut it = s.split(' ');
+                (it.next().unwrap().parse().unwrap(), it.next().unwrap().parse().unwrap())
+            })
+        }))
+        .unwrap_or_else(|_| Err("Panic".to_string()));
+        // what the owner pays / receives
+        let expect: Option<(u64, u64)> = ref_res.as_ref().ok().and_then(|(da, db)| {
+            if inc {
+                Some((included_of(ba, ma, *da)?, included_of(bb, mb, *db)?))
+            } else {
+                Some((da - fee_of(ba, ma, *da), db - fee_of(bb, mb, *db)))
+            }
+        });
+        let (lim_a, lim_b): (u64, u64) = match (&expect, slack) {
+            (Some((ua, ub)), 1) => (*ua, *ub),
+            (Some((ua, ub)), 2) => (if inc { ua.saturating_sub(1) } else { ua.saturating_add(1) }, *ub),
+            _ => {
+                if inc {
+                    (u64::MAX, u64::MAX)
+                } else {
+                    (0, 0)
+                }
+            }
+        };
+        let tight = match &expect {
+            Some((ua, _)) => slack == 2 && ((inc && lim_a < *ua) || (!inc && lim_a > *ua)),
+            None => false,
+        };
+        // ---- accounts
+        let t22a = ver == 2 && t[7] != "65535";
+        let t22b = ver == 2 && t[10] != "65535";
+        let funds = u64::MAX / 4;
+        let mut fx = Fx::from_world(&base, fee_a, fee_b, t22a, t22b, funds);
+        let pmint = k(0x61, id as u8);
+        let position = anchor_lang::prelude::Pubkey::find_program_address(&[b"position", pmint.as_ref()], &::whirlpool::ID).0;
+        let ptoken = k(0x62, id as u8);
+        let stranger = k(0x63, 9);
+        let mut pdata = base.positions[&id].clone();
+        pdata[8..40].copy_from_slice(fx.pool.as_ref());
+        pdata[40..72].copy_from_slice(pmint.as_ref());
+        let pos_units = *base.pos_rent.get(&id).unwrap_or(&2);
+        fx.bank.set(position, ::whirlpool::ID, min_balance(pdata.len()) + pos_units as u64 * TICK_RENT, pdata);
+        fx.bank.set(pmint, anchor_spl::token::ID, 1_000_000, crate::fixture::mint_data(false, 0, None, 0));
+        fx.bank.set(ptoken, anchor_spl::token::ID, 2_000_000, crate::fixture::token_account_data(false, &pmint, &fx.trader, 1, false));
+        fx.bank.set(stranger, crate::svm::system_id(), 1_000_000, vec![]);
+        // tick arrays: exactly rent-exempt for their size plus the tick-rent units they hold
+        for st in [ls, us] {
+            let key = crate::fixture::tick_array_pda(&fx.pool, st);
+            let mut a = fx.bank.get(&key);
+            let dynamic = base.arrays[&st].dynamic;
+            a.lamports = if dynamic { min_balance(148) + *base.array_rent.get(&st).unwrap_or(&0) as u64 * TICK_RENT } else { min_balance(a.data.len()) };
+            fx.bank.accts.insert(key, a);
+        }
+        let bank0 = fx.bank.clone();
+        let (ta_l, ta_u) = (crate::fixture::tick_array_pda(&fx.pool, ls), crate::fixture::tick_array_pda(&fx.pool, us));
+        let signer_key = if auth_mode == 1 { stranger } else { fx.trader };
+        let (mut metas, data): (Vec<Meta>, Vec<u8>) = if ver == 2 {
+            let acc = ::whirlpool::accounts::ModifyLiquidityV2 {
+                whirlpool: fx.pool,
+                token_program_a: fx.prog_a,
+                token_program_b: fx.prog_b,
+                memo_program: anchor_spl::memo::ID,
+                position_authority: signer_key,
+                position,
+                position_token_account: ptoken,
+                token_mint_a: fx.mint_a,
+                token_mint_b: fx.mint_b,
+                token_owner_account_a: fx.trader_a,
+                token_owner_account_b: fx.trader_b,
+                token_vault_a: fx.vault_a,
+                token_vault_b: fx.vault_b,
+                tick_array_lower: ta_l,
+                tick_array_upper: ta_u,
+            };
+            let m = acc.to_account_metas(None).iter().map(Meta::from).collect();
+            let d = if inc {
+                ::whirlpool::instruction::IncreaseLiquidityV2 { liquidity_amount: liq, token_max_a: lim_a, token_max_b: lim_b, remaining_accounts_info: None }.data()
+            } else {
+                ::whirlpool::instruction::DecreaseLiquidityV2 { liquidity_amount: liq, token_min_a: lim_a, token_min_b: lim_b, remaining_accounts_info: None }.data()
+            };
+            (m, d)
+        } else {
+            let acc = ::whirlpool::accounts::ModifyLiquidity {
+                whirlpool: fx.pool,
+                token_program: anchor_spl::token::ID,
+                position_authority: signer_key,
+                position,
+                position_token_account: ptoken,
+                token_owner_account_a: fx.trader_a,
+                token_owner_account_b: fx.trader_b,
+                token_vault_a: fx.vault_a,
+                token_vault_b: fx.vault_b,
+                tick_array_lower: ta_l,
+                tick_array_upper: ta_u,
+            };
+            let m = acc.to_account_metas(None).iter().map(Meta::from).collect();
+            let d = if inc {
+                ::whirlpool::instruction::IncreaseLiquidity { liquidity_amount: liq, token_max_a: lim_a, token_max_b: lim_b }.data()
+            } else {
+                ::whirlpool::instruction::DecreaseLiquidity { liquidity_amount: liq, token_min_a: lim_a, token_min_b: lim_b }.data()
+            };
+            (m, d)
+        };
+        if auth_mode == 2 {
+            for m in metas.iter_mut() {
+                if m.key == signer_key {
+                    m.signer = false;
+                }
+            }
+        }
+        let (res, out) = fx.bank.execute(&metas, &data);
+        let bal = |b: &Bank, key: &anchor_lang::prelude::Pubkey| token_amount(&b.data(key));
+        let vault_short = match &ref_res {
+            Ok((da, db)) if !inc => *da > bal(&bank0, &fx.vault_a) || *db > bal(&bank0, &fx.vault_b),
+            _ => false,
+        };
+        let line = match &res {
+            Err(e) => {
+                let name = err_name(e, &out.logs);
+                if auth_mode != 0 {
+                    tags.push("liq_unauthorized_rejected");
+                } else {
+                    match &expect {
+                        Some(_) if tight => {
+                            let want = if inc { "TokenMaxExceeded" } else { "TokenMinSubceeded" };
+                            if name != want {
+                                viols.push(format!("C16/C08 token limit one unit too tight: expected {}, the handler gives {}", want, name));
+                            }
+                            tags.push("liq_limit_rejected");
+                        }
+                        Some((ua, ub)) if (inc && (*ua > funds || *ub > funds)) || vault_short => tags.push("liq_token_insufficient_funds"),
+                        Some(_) => viols.push(format!("C12 liquidity instruction v{} fails with {} but the manager computation succeeds ({:?})", ver, name, ref_res)),
+                        None => tags.push("liq_both_fail"),
+                    }
+                }
+                if fx.bank.accts != bank0.accts {
+                    viols.push("a failed liquidity instruction changed account state".to_string());
+                }
+                format!("err {}", name)
+            }
+            Ok(()) => {
+                if auth_mode != 0 {
+                    viols.push(format!("C04 the liquidity instruction succeeded although the position owner did not sign (mode {})", auth_mode));
+                }
+                match (&ref_res, &expect) {
+                    (Ok((da, db)), Some((ua, ub))) => {
+                        if tight {
+                            viols.push("C16/C08 the token limit is one unit too tight but the instruction succeeded".to_string());
+                        }
+                        let (d_ta, d_tb, d_va, d_vb) = if inc {
+                            (bal(&bank0, &fx.trader_a) - bal(&fx.bank, &fx.trader_a), bal(&bank0, &fx.trader_b) - bal(&fx.bank, &fx.trader_b), bal(&fx.bank, &fx.vault_a) - bal(&bank0, &fx.vault_a), bal(&fx.bank, &fx.vault_b) - bal(&bank0, &fx.vault_b))
+                        } else {
+                            (bal(&fx.bank, &fx.trader_a) - bal(&bank0, &fx.trader_a), bal(&fx.bank, &fx.trader_b) - bal(&bank0, &fx.trader_b), bal(&bank0, &fx.vault_a) - bal(&fx.bank, &fx.vault_a), bal(&bank0, &fx.vault_b) - bal(&fx.bank, &fx.vault_b))
+                        };
+                        if (d_va, d_vb) != (*da, *db) {
+                            viols.push(format!("C16/C08 the vaults moved ({}, {}) but the liquidity change is worth ({}, {})", d_va, d_vb, da, db));
+                        }
+                        if (d_ta, d_tb) != (*ua, *ub) {
+                            viols.push(format!("C16 the owner {} ({}, {}); expected ({}, {})", if inc { "paid" } else { "received" }, d_ta, d_tb, ua, ub));
+                        }
+                        // whirlpool and position accounts = the manager-level reference
+                        let mut want_wp = reference.wp.clone();
+                        let got_wp = fx.bank.data(&fx.pool);
+                        // (config / mints / vaults / bump were set by the fixture)
+                        let w_ref = Whirlpool::try_deserialize(&mut &want_wp[..]).unwrap();
+                        let w_got = fx.wp();
+                        let same_pool = { w_ref.liquidity } == { w_got.liquidity }
+                            && w_ref.reward_last_updated_timestamp == w_got.reward_last_updated_timestamp
+                            && (0..3).all(|i| { w_ref.reward_infos[i].growth_global_x64 } == { w_got.reward_infos[i].growth_global_x64 })
+                            && { w_ref.sqrt_price } == { w_got.sqrt_price }
+                            && { w_ref.fee_growth_global_a } == { w_got.fee_growth_global_a };
+                        if !same_pool {
+                            viols.push("C12 the whirlpool account after the liquidity instruction differs from the manager-level result".to_string());
+                        }
+                        let _ = (&mut want_wp, got_wp);
+                        let p_got = fx.bank.data(&position);
+                        let p_ref = &reference.positions[&id];
+                        if p_got[72..] != p_ref[72..] {
+                            viols.push("C12 the position account after the liquidity instruction differs from the manager-level result".to_string());
+                        }
+                        // tick arrays: bytes (up to the re-keyed pool field), REAL account length, lamports
+                        for st in [ls, us] {
+                            let key = crate::fixture::tick_array_pda(&fx.pool, st);
+                            let got = fx.bank.get(&key);
+                            let racc = &reference.arrays[&st];
+                            let rdata = racc.data.borrow();
+                            if racc.dynamic {
+                                let n = u128::from_le_bytes(rdata[44..60].try_into().unwrap()).count_ones() as usize;
+                                let used = 148 + 112 * n;
+                                if got.data.len() != used {
+                                    viols.push(format!("C13 dynamic tick array at {}: account length {} after the instruction, 148 + 112 x {} = {}", st, got.data.len(), n, used));
+                                } else if got.data[44..used] != rdata[44..used] || got.data[..12] != rdata[..12] {
+                                    viols.push(format!("C12/C13 dynamic tick array at {} differs from the manager-level result", st));
+                                }
+                                if got.lamports < min_balance(got.data.len()) {
+                                    viols.push(format!("C13 dynamic tick array at {} is not rent exempt after the instruction ({} lamports for {} bytes)", st, got.lamports, got.data.len()));
+                                }
+                                let want_l = min_balance(148) + *reference.array_rent.get(&st).unwrap_or(&0) as u64 * TICK_RENT;
+                                if got.lamports != want_l {
+                                    viols.push(format!("C13 dynamic tick array at {} holds {} lamports, the rent ledger says {}", st, got.lamports, want_l));
+                                }
+                            } else {
+                                let n = rdata.len();
+                                if got.data.len() != n || got.data[..n - 32] != rdata[..n - 32] {
+                                    viols.push(format!("C12 fixed tick array at {} differs from the manager-level result", st));
+                                }
+                            }
+                        }
+                        let want_pl = min_balance(216) + *reference.pos_rent.get(&id).unwrap_or(&2) as u64 * TICK_RENT;
+                        if fx.bank.get(&position).lamports != want_pl {
+                            viols.push(format!("C13 the position holds {} lamports, the rent ledger says {}", fx.bank.get(&position).lamports, want_pl));
+                        }
+                        tags.push(if ba > 0 || bb > 0 { "liq_ok_with_transfer_fee" } else { "liq_ok" });
+                        format!("ok {} {} {} {}", d_ta, d_tb, d_va, d_vb)
+                    }
+                    _ => {
+                        viols.push(format!("C12 liquidity instruction v{} succeeds but the manager computation fails ({:?})", ver, ref_res.as_ref().err()));
+                        "ok ?".to_string()
+                    }
+                }
+            }
+        };
+        XHopOut { line, viols, tags }
+    }
+}
+use ::whirlpool::state::Whirlpool;
+use anchor_lang::AccountDeserialize;
+
+// ================================================================================================
+// C15 / C04: account substitution — every account slot of an instruction replaced by a look-alike
+//   H xsub <swap|liq> <slot> <id>
+// The look-alike has the same owner program and the same account type, but is not the account the
+// pool / position names (another vault for the same mint, another mint, a tick array or oracle of a
+// different pool, another position, the other token program, an unrelated signer ...).
+// The instruction must be refused and must change nothing.
+// ================================================================================================
+impl World {
+    pub fn x_sub(&self, t: &[&str]) -> XHopOut {
+        use anchor_lang::ToAccountMetas;
+        let mut viols = vec![];
+        let mut tags: Vec<&'static str> = vec![];
+        let kind = t[2];
+        let slot: usize = t[3].parse().unwrap();
+        let id: u32 = t[4].parse().unwrap();
+        let funds = u64::MAX / 4;
+        let mut base = crate::hist_oracle::clone_world(self);
+        let pos0 = self.pos(id);
+        if kind == "liq" {
+            match &pos0 {
+                Some(p) => {
+                    let (ls, us) = (base.array_start_for(p.tick_lower_index), base.array_start_for(p.tick_upper_index));
+                    base.ensure_array(ls);
+                    base.ensure_array(us);
+                }
+                None => return XHopOut { line: "err NoSuchPosition".to_string(), viols, tags },
+            }
+        }
+        // Token-2022 mints on both sides so that every slot has a look-alike of the same program
+        let mut fx = Fx::from_world(&base, None, None, false, false, funds);
+        // a second pool over the same mints (look-alike whirlpool, vaults, tick arrays, oracle)
+        let ma = MintCfg { key: fx.mint_a, token2022: false, fee: None, decimals: 6 };
+        let mb = MintCfg { key: fx.mint_b, token2022: false, fee: None, decimals: 9 };
+        let other = Fx::pool_only(&base, &ma, &mb, 1, fx.bank.clone());
+        fx.bank = other.bank.clone();
+        // a third mint with the trader's account, a stranger, a second position
+        let mc = MintCfg { key: k(0x37, 7), token2022: false, fee: None, decimals: 6 };
+        add_token_side(&mut fx.bank, &[mc], funds);
+        let stranger = k(0x63, 9);
+        fx.bank.set(stranger, crate::svm::system_id(), 1_000_000, vec![]);
+        let dir = true;
+        let ta = fx.swap_arrays(dir);
+        let ota = other.swap_arrays(dir);
+        // make sure the foreign tick arrays exist as initialized accounts of the OTHER pool
+        let (metas, data, roles): (Vec<Meta>, Vec<u8>, Vec<(anchor_lang::prelude::Pubkey, anchor_lang::prelude::Pubkey)>) = if kind == "swap" {
+            let m = fx.swap_v2_metas(dir);
+            let d = ::whirlpool::instruction::SwapV2 { amount: 1000, other_amount_threshold: 0, sqrt_price_limit: 0, amount_specified_is_input: true, a_to_b: dir, remaining_accounts_info: None }.data();
+            let roles = vec![
+                (fx.pool, other.pool),
+                (fx.mint_a, mc.key),
+                (fx.mint_b, mc.key),
+                (fx.trader_a, trader_account(&mc.key)),
+                (fx.trader_b, trader_account(&mc.key)),
+                (fx.vault_a, other.vault_a),
+                (fx.vault_b, other.vault_b),
+                (ta[0], ota[0]),
+                (ta[1], ota[1]),
+                (ta[2], ota[2]),
+                (fx.oracle, other.oracle),
+                (fx.trader, stranger),
+                (fx.prog_a, anchor_spl::token_2022::ID),
+                (anchor_spl::memo::ID, anchor_spl::token::ID),
+            ];
+            (m, d, roles)
+        } else {
+            let p = pos0.unwrap();
+            let (ls, us) = (base.array_start_for(p.tick_lower_index), base.array_start_for(p.tick_upper_index));
+            let mk_pos = |bank: &mut Bank, pool: &anchor_lang::prelude::Pubkey, tag: u8| -> (anchor_lang::prelude::Pubkey, anchor_lang::prelude::Pubkey) {
+                let pmint = k(0x61 + tag, id as u8);
+                let position = anchor_lang::prelude::Pubkey::find_program_address(&[b"position", pmint.as_ref()], &::whirlpool::ID).0;
+                let ptoken = k(0x65 + tag, id as u8);
+                let mut pdata = base.positions[&id].clone();
+                pdata[8..40].copy_from_slice(pool.as_ref());
+                pdata[40..72].copy_from_slice(pmint.as_ref());
+                bank.set(position, ::whirlpool::ID, min_balance(pdata.len()) + 2 * TICK_RENT, pdata);
+                bank.set(pmint, anchor_spl::token::ID, 1_000_000, crate::fixture::mint_data(false, 0, None, 0));
+                bank.set(ptoken, anchor_spl::token::ID, 2_000_000, crate::fixture::token_account_data(false, &pmint, &k(0x51, 1), 1, false));
+                (position, ptoken)
+            };
+            let (position, ptoken) = mk_pos(&mut fx.bank, &fx.pool, 0);
+            let (o_position, o_ptoken) = mk_pos(&mut fx.bank, &other.pool, 1);
+            let (ta_l, ta_u) = (crate::fixture::tick_array_pda(&fx.pool, ls), crate::fixture::tick_array_pda(&fx.pool, us));
+            let (ota_l, ota_u) = (crate::fixture::tick_array_pda(&other.pool, ls), crate::fixture::tick_array_pda(&other.pool, us));
+            let acc = ::whirlpool::accounts::ModifyLiquidityV2 {
+                whirlpool: fx.pool,
+                token_program_a: fx.prog_a,
+                token_program_b: fx.prog_b,
+                memo_program: anchor_spl::memo::ID,
+                position_authority: fx.trader,
+                position,
+                position_token_account: ptoken,
+                token_mint_a: fx.mint_a,
+                token_mint_b: fx.mint_b,
+                token_owner_account_a: fx.trader_a,
+                token_owner_account_b: fx.trader_b,
+                token_vault_a: fx.vault_a,
+                token_vault_b: fx.vault_b,
+                tick_array_lower: ta_l,
+                tick_array_upper: ta_u,
+            };
+            let m: Vec<Meta> = acc.to_account_metas(None).iter().map(Meta::from).collect();
+            let d = ::whirlpool::instruction::IncreaseLiquidityV2 { liquidity_amount: 1000, token_max_a: u64::MAX, token_max_b: u64::MAX, remaining_accounts_info: None }.data();
+            let roles = vec![
+                (fx.pool, other.pool),
+                (position, o_position),
+                (ptoken, o_ptoken),
+                (fx.mint_a, mc.key),
+                (fx.mint_b, mc.key),
+                (fx.trader_a, trader_account(&mc.key)),
+                (fx.trader_b, trader_account(&mc.key)),
+                (fx.vault_a, other.vault_a),
+                (fx.vault_b, other.vault_b),
+                (ta_l, ota_l),
+                (ta_u, ota_u),
+                (fx.trader, stranger),
+                (fx.prog_a, anchor_spl::token_2022::ID),
+                (anchor_spl::memo::ID, anchor_spl::token::ID),
+            ];
+            (m, d, roles)
+        };
+        // the unsubstituted instruction must be acceptable (else the experiment says nothing)
+        let mut control = fx.bank.clone();
+        let (cres, cout) = control.execute(&metas, &data);
+        if let Err(e) = &cres {
+            return XHopOut { line: format!("skip {}", err_name(e, &cout.logs)), viols, tags: vec!["sub_control_fails"] };
+        }
+        if slot >= metas.len() {
+            return XHopOut { line: "skip NoSuchSlot".to_string(), viols, tags: vec!["sub_no_slot"] };
+        }
+        let orig = metas[slot].key;
+        let subst = match roles.iter().find(|(a, _)| *a == orig) {
+            Some((_, b)) => *b,
+            None => return XHopOut { line: "skip NoLookAlike".to_string(), viols, tags: vec!["sub_no_lookalike"] },
+        };
+        // a look-alike must be a real account of the same kind (an array that does not exist in the other pool is
+        // just an unrelated empty account, which the tick-array builder legitimately ignores)
+        if (fx.bank.get(&orig).owner == ::whirlpool::ID || roles.iter().position(|(a, _)| *a == orig).map_or(false, |i| kind == "swap" && (7..=10).contains(&i))) && fx.bank.get(&subst).owner != ::whirlpool::ID {
+            return XHopOut { line: "skip NoLookAlike".to_string(), viols, tags: vec!["sub_no_lookalike"] };
+        }
+        let mut m2 = metas.clone();
+        // a duplicated key (token program a == b) is substituted in this slot only
+        m2[slot].key = subst;
+        let bank0 = fx.bank.clone();
+        let (res, out) = fx.bank.execute(&m2, &data);
+        let line = match res {
+            Ok(()) => {
+                viols.push(format!("C15 the {} instruction accepted a look-alike account in slot {} ({} instead of {})", kind, slot, subst, orig));
+                "ACCEPTED".to_string()
+            }
+            Err(e) => {
+                let _ = err_name(&e, &out.logs);
+                if fx.bank.accts != bank0.accts {
+                    viols.push("a refused instruction changed account state".to_string());
+                }
+                tags.push("sub_rejected");
+                "rejected".to_string()
+            }
+        };
         XHopOut { line, viols, tags }
     }
 }
